@@ -55,7 +55,8 @@ P = {
     "generators": [gen_schema_tables],
     "_meta_stream": {
         "name": "meta", "pkg": "./internal/config", "test": "TestVerifC20Meta",
-        "overlay": {"internal/config/zz_verif_c20_meta_test.go": "c20/c20_meta_test.go"},
+        "overlay": {"internal/config/zz_verif_c20_meta_test.go": "c20/c20_meta_test.go",   # the same overlay as stream seq: one build
+                    "internal/config/zz_verif_c20_seq_test.go": "c20/c20_seq_test.go"},
         "eval_module": "Run.Eval_C20", "check_term": "check_meta",
         "n_quick": 120, "n_thorough": 1500, "findings": {4: "C20-F4", 5: "C20-F5", 6: "C20-F6"}, "escalate": False, "shard": 10,
     },
